@@ -25,7 +25,7 @@ func init() {
 		Level: "exploration",
 		Rule: "case = (initial IMSI of 14/15 digits with 2- or 3-digit MNC, population N in {1,2,3,10,100,1000,10000} that the MSIN can accommodate, K, OP, OPc); two cases in five place the initial MSIN so that the population walks across a 10^j carry, j cycling through 1..MSIN length-1 by case index; one case in six makes the numeric value of the IMSI walk across a multiple of 2^31 / 2^32 / 2^33 / 2^40 / 2^48 inside a population of up to 10000; " +
 			"every case creates N UEs with stgutg.CreateUE and checks pairwise distinct SUPI / RAN-UE-NGAP-ID, PLMN prefix and digit count, credentials; " +
-			"one case in eighty runs the emulator PROCESS (test mode, 2..4 registrations, initial MSIN placed on a 10^j carry) against the reference AMF, which checks RAN-UE-NGAP-IDs and SUCIs of the Initial UE Messages; one case in eight instead sweeps all 16 (NEA,NIA) pairs through NewRanUeContext+GetUESecurityCapability. distinct = hash(IMSI,N); non-trivial = N>=2 or capability sweep",
+			"one case in eighty runs the emulator PROCESS (test mode, 2..4 registrations, initial MSIN placed on a 10^j carry) against the reference AMF, which checks RAN-UE-NGAP-IDs and SUCIs of the Initial UE Messages; one case in eight instead sweeps all 16 (NEA,NIA) pairs through NewRanUeContext+GetUESecurityCapability. One process population of 51..66 UEs per run (101..130 and 257..264 more in thorough). distinct = hash(IMSI,N); non-trivial = N>=2 or capability sweep",
 		Assumptions: []string{"SUPI text form is imsi-<digits>", "population is bounded by 10 000 as the property says"},
 		N: func(t string) int {
 			if t == "thorough" {
